@@ -482,7 +482,7 @@ def _mentions_term(t, needle):
 # ---------------------------------------------------------------------------------------------------------------------
 # R-CHASE-CALLS (C04): every typed extraction looks parameters up the same way
 
-@rule("R-CHASE-CALLS", ["C04"])
+@rule("R-CHASE-CALLS", ["C04", "C03"])
 def r_chase_calls(cx):
     """All calls of `chase` in ParsedParameters::new pass (globals, &locals, key) in this order: globals are the
     RawParameters' globals, locals the tokenized definition. Both are BTreeMap<String, String>, so an exchanged pair
@@ -509,6 +509,29 @@ def r_chase_calls(cx):
                   "its first argument is not the invocation's globals" if not ok_g else
                   "its second argument is not the tokenized step"), cx.where(t["span"]))
     cx.count("R-CHASE-CALLS", "chase_calls", n)
+    # the two implicit modifiers are looked up independently: each look-up lies on every path to the Ok(..) result
+    oks = []
+    for bb, i, s in f.all_stmts():
+        if s["k"] == "assign" and s["rv"]["k"] == "agg" and s["rv"].get("adt") == K.PP:
+            oks.append(bb)
+    for key in ("omit_fwd", "omit_inv"):
+        sites = []
+        for bb, t in f.calls():
+            if (f.callee(t) or "").endswith("parsed_parameters::chase"):
+                a = f.arg_terms(bb)
+                if len(a) > 2 and K._const_key(a[2]) == key:
+                    sites.append(bb)
+        ok = bool(sites) and bool(oks)
+        why = "no look-up of `%s` found" % key
+        if ok:
+            for okb in oks:
+                if okb in f.reach_from([0], avoid=tuple(sites)):
+                    ok = False
+                    why = "the result can be built without `%s` having been looked up (the look-up is skipped on some " \
+                          "path, e.g. when the other modifier is present)" % key
+        cx.ob("R-CHASE-CALLS", "new/implicit-%s" % key, ok,
+              "the implicit modifier `%s` is looked up on every path to the parsed result" % key if ok else
+              "ParsedParameters::new: %s" % why, cx.where(f.d["span"]))
 
 
 # ---------------------------------------------------------------------------------------------------------------------
